@@ -232,13 +232,20 @@ Definition pkg_obs lnc lnd (chems : list qchem) (s : list (pkg unit)) (o : pobs)
 (* the chemicals of these cases never change, so live and captured models coincide *)
 Definition pkg_case lnc lnd (chems : list qchem) (ops : list (pop unit)) (chem_lists : list (list nat)) (obs : list pobs)
            (expected : list (pyv Q)) : bool :=
-  let s := snd (prun unit (tt, []) ops) in
+  let s := snd (prun unit (fun _ _ _ => true) (tt, []) ops) in
   list_eqb (list_eqb Nat.eqb) (map p_chems s) chem_lists && pyvs_approxb (map (pkg_obs lnc lnd chems s) obs) expected.
 
 (* ---- packages over chemicals that CHANGE (the Rewire.v store): a model index evaluates the chemical's current
         functors when the models are live, and the functors of the store state captured at build time otherwise ---- *)
 Definition hstate := state qcc (option Q) qsc.
 Definition hrun1 (o : hop) (s : hstate) : hstate := step qcc (option Q) qsc d0cc qmerge s o.
+
+(* chemical c has the same H / S functor objects in two store states: same version *)
+Definition hsame (c : nat) (s s' : hstate) : bool :=
+  match nth_error (snd s) c, nth_error (snd s') c with
+  | Some a, Some b => Nat.eqb (w_ver _ _ _ a) (w_ver _ _ _ b)
+  | _, _ => false
+  end.
 
 Definition entry_state (cur : hstate) (e : nat * option hstate) : hstate :=
   match snd e with None => cur | Some s => s end.
@@ -249,12 +256,14 @@ Definition entry_S lnc lnd tI tJ (cur : hstate) (e : nat * option hstate) : phas
   fun ph T P => let s := entry_state cur e in
     match nth_error (snd s) (fst e) with Some c => hobserve lnc lnd tI tJ (fst s) c (QS ph T P) | None => Err EIndex end.
 (* Chemical.Cn through the mixture: the PhaseTHandle dispatches on the phase, a locked chemical has one model *)
+(* Chemical.Cn through the mixture: the mixture keeps the PhaseTHandle OBJECT of the chemical, which no rebuild of the
+   free energies replaces, so the heat capacity is the chemical's current one *)
 Definition entry_Cn (cur : hstate) (e : nat * option hstate) : phase -> option Q -> pyv Q :=
-  fun ph T => let s := entry_state cur e in
-    match nth_error (snd s) (fst e), T with
+  fun ph T =>
+    match nth_error (snd cur) (fst e), T with
     | Some c, Some _ =>
         let ph' := match c_kind _ _ _ c with CnLocked sp => sp | _ => ph end in
-        Ok (cc_get (hget qcc d0cc (fst s) (c_cn _ _ _ c)) ph')
+        Ok (cc_get (hget qcc d0cc (fst cur) (c_cn _ _ _ c)) ph')
     | Some _, None => Err EType
     | None, _ => Err EIndex
     end.
@@ -280,7 +289,7 @@ Definition hp_obs lnc lnd tI tJ (s : pstate hstate) (o : pobs) : pyv Q :=
 
 Definition pkghist_case lnc lnd tI tJ specs (ops : list (pop hstate)) (chem_lists : list (list nat)) (obs : list pobs)
            (expected : list (pyv Q)) : bool :=
-  let s := prun hstate (hstate0 specs, []) ops in
+  let s := prun hstate hsame (hstate0 specs, []) ops in
   list_eqb (list_eqb Nat.eqb) (map p_chems (snd s)) chem_lists && pyvs_approxb (map (hp_obs lnc lnd tI tJ s) obs) expected.
 
 (* the property's "entropy jump at Tm = Hfus / Tm" after the melting point (or the heat of fusion) was changed through
